@@ -16,8 +16,9 @@ RulesUnchanged(o) == o.rules = o.rules0
 ObservesOnly(o) == IsValidate(o) => o.out = "ok" /\ o.worldpost = o.worldpre
 \* prev: the issues the same kind of validation (same root; for rerun/report: the same instance) reported last time
 Repeatable(o) == (o.op \in Validations \cup {"other_process"} /\ o.prevworld = o.worldpre) => Bag(o.issues) = Bag(o.prev)
-\* rerun_same: a private validation run twice in a row on the unchanged objects reported the same issues
-CustomRepeatable(o) == o.op = "run_custom" => o.rerun_same
+\* rerun_same: a private validation run twice in a row on the unchanged objects reported the same issues; for clone_validate: an
+\* edited copy of the document validated by Document.validate() and by a new Validation object reported the same issues
+CustomRepeatable(o) == o.op \in {"run_custom", "clone_validate"} => o.rerun_same
 CustomPrivate(o) == o.op \in Validations => \A i \in DOMAIN o.issues : o.issues[i].k # 701
 \* custom_issues: the reported issues of kind 701 (the harness' own custom rule)
 CustomApplied(o) == o.op = "run_custom" => Bag(o.custom_issues) = Bag(o.custom_expected)
